@@ -626,6 +626,16 @@ def varStep (st : VarSt) (op : String) : VarSt × String :=
        | some h => ({ st with h := h }, "-")
        | none => (st, "panic"))
     | _, _ => (st, "bad")
+  | ["mid2", k, i, j, enc] =>
+    match decV enc, i.toInt?, j.toInt? with
+    | some e, some i, some j =>
+      (match st.h.elemRef (ref k) i with
+       | some er =>
+         (match st.h.mutElem er j e with
+          | some h => ({ st with h := h }, "-")
+          | none => (st, "panic"))
+       | none => (st, "panic"))
+    | _, _, _ => (st, "bad")
   | ["gidx", k, i] =>
     match i.toInt? with
     | some i => (st, match st.h.elemRef (ref k) i with | some r => encV (st.h.read rdFuel r) | none => "panic")
